@@ -51,6 +51,8 @@ def run_mutant(m):
     root = scratch_copy()
     try:
         if "patch" in m:
+            if not os.path.isabs(m["patch"]):
+                m = dict(m, patch=os.path.join(VERIF, m["patch"]))
             r = subprocess.run(["git", "apply", "--unsafe-paths", "--directory", root, m["patch"]], cwd=root,
                                stdout=subprocess.PIPE, stderr=subprocess.STDOUT)
             if r.returncode != 0:
